@@ -8,7 +8,7 @@ From Coq Require Import List Arith Bool ZArith QArith Permutation Reals.
 From TK Require Import QuadTree_Model QuadTree_Spec QuadTree_SpecExec QuadTree_Proof_Base
                        QuadTree_Proof_Insert QuadTree_Proof_Main QuadTree_Proof_Forces
                        QuadTree_Proof_Fuel QuadTree_Proof_Spec QuadTree_Proof_Exec
-                       QuadTree_Proof_Observers QuadTree_Proof_Order
+                       QuadTree_Proof_Observers QuadTree_Proof_Order QuadTree_Proof_Order2 QuadTree_Proof_Bound
                        QuadTree_Proof_Final QuadTree_Proof_Sqrt.
 Import ListNotations.
 Local Open Scope Q_scope.
@@ -172,6 +172,43 @@ Theorem forces_small_theta_exact : forall fuel data order root ok t,
         exists r, forces data i theta t a = FDone r /\ feq r (fadd a (exact_sums data p i order)).
 Proof. exact forces_small_theta_exact_final. Qed.
 Print Assumptions forces_small_theta_exact.
+
+(* 6b. quantitative form of "the error vanishes as theta -> 0": no coincident points, 0 <= theta, 8 theta^2 <= 1;
+       with eps = 9 theta + 8 theta^2 (epsf) and kap = eps (2 + eps) / 2 (kapf), `bound theta r0 e` says
+         |sum_Q(r0) - sum_Q(e)| <= eps * sum_Q(e)   and   |neg_f[d](r0) - neg_f[d](e)| <= kap * sum_Q(e), d = 0, 1,
+       where r0 is what the tree code adds to the accumulator and e the exact all-pairs sums *)
+Theorem forces_error_bound : forall fx fuel data order root ok t,
+  in_root data root order -> NoCo data order ->
+  fill_order fx fuel data order (init root) = Done ok t ->
+  forall theta, 0 <= theta -> 8 * (theta * theta) <= 1 ->
+  forall i p a, nth_error data i = Some p ->
+    exists r r0, forces data i theta t a = FDone r /\ feq r (fadd a r0) /\
+                 bound theta r0 (exact_sums data p i order).
+Proof. exact forces_error_bound_final. Qed.
+Print Assumptions forces_error_bound.
+Example forces_error_bound_nonvacuous :
+  (in_root ex_data2 ex_root ex_order2 /\ NoCo ex_data2 ex_order2 /\
+   exists t, fill_order true 6 ex_data2 ex_order2 (init ex_root) = Done true t) /\
+  0 <= (1 # 8) /\ 8 * ((1 # 8) * (1 # 8)) <= 1.
+Proof. exact (conj (conj ex_in_root2 (conj ex_noco2 ex_builds2)) ex_theta). Qed.
+
+(* 6c. without coincident points the sums do not depend on the insertion order, for EVERY theta *)
+Theorem forces_order_independent : forall fx fuel1 fuel2 data order1 order2 root ok1 ok2 t1 t2,
+  Permutation order1 order2 ->
+  in_root data root order1 -> NoCo data order1 ->
+  fill_order fx fuel1 data order1 (init root) = Done ok1 t1 ->
+  fill_order fx fuel2 data order2 (init root) = Done ok2 t2 ->
+  forall p i theta a, feq (forces_at p i theta t1 a) (forces_at p i theta t2 a).
+Proof. exact forces_order_independent_final. Qed.
+Print Assumptions forces_order_independent.
+
+(* 6d. masses: every internal cell's cum_size is the sum of its children's and at least 2; every occupied leaf's
+       count[0] (the field of fix F24) equals its cum_size *)
+Theorem leaf_count_is_mass : forall fuel data order root ok t,
+  in_root data root order ->
+  fill_order true fuel data order (init root) = Done ok t -> count_ok t.
+Proof. exact count_ok_final. Qed.
+Print Assumptions leaf_count_is_mass.
 
 (* 7. points on a grid of step g in a root box of half-size <= 2^d g: fuel d + 3 suffices, i.e. the
       recursion of insert() is at most that deep and the run is never `OutOfFuel` *)
